@@ -14,6 +14,9 @@ import JsonV.Lemmas.GlueFormatStr
 import JsonV.Lemmas.GlueFormatLayout
 import JsonV.Lemmas.FormatStrictL
 import JsonV.Lemmas.GlueTreeConverse
+import JsonV.Lemmas.GlueStrict
+import JsonV.Lemmas.FormatRespell
+import JsonV.Props.C01
 import JsonV.Gen.Lits
 
 namespace JsonV.Props.C12
@@ -190,10 +193,6 @@ theorem formatV_ok_text (key : Bytes → Bytes) (o : FOpts) (b : Bytes) (h : (fo
   | none => simp [ht] at h
   | some ts => exact tokenize_text key b ts ((tokenizeV_eq_some o b ts).mp ht).1
 
-def formatV_ok_iff_text_full : Prop :=
-  ∀ (o : FOpts) (b : Bytes), (formatV o b).isSome = true ↔
-    Spec.Grammar.JText ⟨!o.allowInvalidUTF8, o.allowDup⟩ maxDepth (nameKey o) b
-
 /-- Tie A: the literals the renderer emits are the literals of AppendIndent / appendWhitespace / reformatValue /
 reformatObject / reformatArray (regenerated from encode.go). -/
 theorem tie_render_literals :
@@ -238,6 +237,32 @@ theorem formatV_ok_iff (o : FOpts) (b : Bytes) :
         exact ⟨ts, h3, h2, h4⟩
     · rintro ⟨ts, h3, h2, h4⟩
       rw [(tokenizeV_eq_some o b ts).mpr ⟨(tokenize_iff_layout' b ts).mpr ⟨h3, h4⟩, h2⟩]; rfl
+
+/-- **succeed iff valid for the strict model, against the C01 grammar**: `Value.Format` with the modelled options
+succeeds exactly on the texts of `JText` with the selected string mode (strict UTF-8 unless AllowInvalidUTF8),
+duplicate policy (names unique unless AllowDuplicateNames, compared by C01's `nameKey`) and nesting ≤ maxNestingDepth. -/
+theorem formatV_ok_iff_text (o : FOpts) (b : Bytes) :
+    (formatV o b).isSome = true ↔
+      Spec.Grammar.JText ⟨!o.allowInvalidUTF8, o.allowDup⟩ maxDepth (nameKey o) b := by
+  rw [(formatV_ok_iff o b).1]
+  unfold isValidV
+  constructor
+  · intro h
+    cases ht : tokenizeV o b with
+    | none => simp [ht] at h
+    | some ts => exact tokenizeV_text o b ts ht
+  · intro h
+    obtain ⟨ts, ht⟩ := text_tokenizeV o b h
+    simp [ht]
+
+/-- the token-level validity of this slice is C01's model of `Value.IsValid`, for all four option combinations -/
+theorem isValidV_eq_isValid (o : FOpts) (b : Bytes) :
+    isValidV o b = Model.Validate.isValid ⟨o.allowInvalidUTF8, o.allowDup⟩ b := by
+  have h1 := formatV_ok_iff_text o b
+  rw [(formatV_ok_iff o b).1] at h1
+  have h2 := JsonV.Props.C01.valid_iff ⟨o.allowInvalidUTF8, o.allowDup⟩ b
+  have h3 : isValidV o b = true ↔ Model.Validate.isValid ⟨o.allowInvalidUTF8, o.allowDup⟩ b = true := h1.trans h2.symm
+  cases hv : isValidV o b <;> cases hw : Model.Validate.isValid ⟨o.allowInvalidUTF8, o.allowDup⟩ b <;> simp_all
 
 /-- validity does not depend on the formatting options -/
 theorem isValidV_congr (o o' : FOpts) (h1 : o.allowInvalidUTF8 = o'.allowInvalidUTF8) (h2 : o.allowDup = o'.allowDup)
@@ -300,8 +325,45 @@ example : isValidV {} [0x22, 0x5c, 0x75, 0x64, 0x38, 0x30, 0x30, 0x22] = false :
 example : isValidV { allowInvalidUTF8 := true } [0x22, 0x5c, 0x75, 0x64, 0x38, 0x30, 0x30, 0x22] = true := by decide +kernel
 example : (⟨true, true, true, false, false, compactOpts⟩ : FOpts).verbatim := ⟨rfl, rfl, rfl⟩
 
-/-- Full statements for the respelling options (PreserveRawStrings off or an escape option on), validated by the
-harness predicates and by the `fmt formatv` correspondence: the output tokens are the input tokens with every
+/-- **Meaning preserved and fixed point when strings are respelled** (any PreserveRawStrings, both validation
+options, no escape option — in particular `Value.Format()` with the default options): the output is accepted under
+the same validation options, its tokens are the input tokens with every string respelled (ReformatString, slice
+C11: the RFC 8785 spelling of the same text), every string keeps its unquoted text, all other tokens are unchanged,
+and formatting the output again returns it unchanged.  With AllowDuplicateNames(false) the statement is relative to
+`NameKeyUnquote` (the name key of a literal is its unquoted text; a fact about C01's `unescapedName` not yet proved
+in slice wire); with AllowDuplicateNames(true) it is unconditional. -/
+theorem formatV_respell (o : FOpts) (hR : o.noEscape) (hw : o.ws.Blank) (hd : o.allowDup = true ∨ NameKeyUnquote)
+    (b b' : Bytes) (h : formatV o b = some b') :
+    ∃ ts, tokenizeV o b = some ts ∧ tokenizeV o b' = some (ts.map (respell o)) ∧
+      (∀ k ∈ ts, match k with
+        | Tok.str raw => respell o k = .str (respellStr o raw) ∧
+            (Model.Wire.unquote (respellStr o raw)).1 = (Model.Wire.unquote raw).1
+        | k => respell o k = k) ∧
+      formatV o b' = some b' := by
+  unfold formatV at h
+  cases ht : tokenizeV o b with
+  | none => simp [ht] at h
+  | some ts =>
+    simp only [ht, Option.some.injEq] at h
+    obtain ⟨h1, h2, h3, h4⟩ := respell_tokens o hR hd b ts ht
+    have hb' : tokenizeV o b' = some (ts.map (respell o)) := by
+      rw [← h]; exact tokenizeV_render' o o.ws hw _ h1 h2
+    refine ⟨ts, rfl, hb', ?_, ?_⟩
+    · intro k hk
+      cases k with
+      | str raw => exact ⟨rfl, by rw [wire_unquote_unqS, wire_unquote_unqS]; exact h4 raw hk⟩
+      | _ => rfl
+    · unfold formatV
+      simp only [hb', h3, h]
+
+/-- the default options of `Value.Format` have no escape option -/
+example : ({} : FOpts).noEscape := ⟨rfl, rfl⟩
+
+/-- the remaining hypothesis of `formatV_respell` under AllowDuplicateNames(false) -/
+def nameKey_unquote_full : Prop := NameKeyUnquote
+
+/-- Full statements over ALL string options (open part: EscapeForHTML / EscapeForJS, where the output literal is not
+the RFC 8785 spelling), validated by the harness predicates and by the `fmt formatv` correspondence: the output tokens are the input tokens with every
 string replaced by a literal of the same unescaped value, and formatting is idempotent. -/
 def formatV_meaning_full : Prop :=
   ∀ (o : FOpts) (b b' : Bytes), o.ws.Blank → formatV o b = some b' →
